@@ -240,6 +240,13 @@ def systematic(Case, cwd, thorough=False):
            opts=[("-w", "foo[1-6],bar,- ^" + f), ("-x", " /^b/")], note="blank-after-dash")
     mk.add("source", [("tgt", "foo[1-6],bar"), ("xfile", f), ("keep", "[1-5]$")], files={f: ["foo[2-3]"]},
            opts=[("-x", "\t^" + f), ("-w", "foo[1-6],bar"), ("-w", " /[1-5]$/")], note="blank-after-dash")
+    # target words with a `user@` / `rcmd_type:` part: the exclusion names the bare host
+    mk.add("source", [("tgt", "foo[1-3]"), ("tgt", "bar"), ("xcl", "foo2")],
+           opts=[("-w", "alice@foo[1-3],bar"), ("-x", "foo2")], note="user-at")
+    mk.add("source", [("tgt", "foo[1-3]"), ("xcl", "foo[2-3]"), ("tgt", "bar,foo3")],
+           opts=[("-w", "exec:foo[1-3],-foo[2-3]"), ("-w", "exec:bob@bar,foo3")], note="user-at")
+    mk.add("source", [("tgt", "foo[1-3]"), ("drop", "2$"), ("xcl", "alice@foo1")],
+           opts=[("-w", "rsh:alice@foo[1-3],-/2$/"), ("-x", "alice@foo1")], note="user-at")
     # a target file with comments, blank lines and an include
     f, g = mk.fname("t"), mk.fname("inc")
     mk.add("source", [("tfile", f), ("xcl", "foo2,bar")], "sep", files={f: ["foo[1-3]", "bar", "foo2", "baz"]},
